@@ -210,6 +210,13 @@ def main(mod):
                 mod.PROP, h["entry"]["what"], kid, h["count"], h["example"]))
         reported = []
         seen_classes = collections.Counter()
+        if violations:
+            brief = collections.Counter()
+            for c, f in violations:
+                d = f.get("detail") or {}
+                brief[(f["class"],) + tuple(str(d.get(k)) for k in getattr(mod, "BRIEF_KEYS", ()))] += 1
+            for k, v in sorted(brief.items()):
+                print("violations: %4d x %s" % (v, " ".join(k)))
         for c, f in violations:
             seen_classes[f["class"]] += 1
             if seen_classes[f["class"]] > 2:  # at most two replay files per class and run
